@@ -194,6 +194,25 @@ def run_property(prop, tier="quick", repo_root="/repo", seed=0, only=None, verbo
             violations.append("VIOLATION property=%s replay=%s no-failing-input-found" % (prop, rpath))
         else:
             undecided.append((name, xs))
+    # ---- bounded stand-in for what the prover left open (labelled bounded; never counted as proved)
+    bounded = []
+    und_funcs = set(x[1][0]["obligation"].func for x in undecided)
+    for c, r in fun_results:
+        if r is None or c.kind != "repo":
+            continue
+        if r.status == "ok" and c.qual not in und_funcs:
+            continue
+        sres = run_standin(c, r, repo, repo_root, seed, 400 if tier == "quick" else 4000)
+        bounded.append(dict(function=c.qual, reason=r.limit or "undecided obligations", evaluations=sres.get("evaluations"), accepted_by_requires=sres.get("accepted"),
+                            distinct=sres.get("distinct"), failures=len(sres.get("failures", [])), error=sres.get("error"),
+                            bound="random pre-states over the prover's observables (depth 3, lists <= 3), %d draws, seed %d" % (400 if tier == "quick" else 4000, seed)))
+        for k, f in enumerate(sres.get("failures", [])[:1]):
+            fname = re.sub(r"[^A-Za-z0-9_.@-]", "_", "%s_standin_%s" % (c.short, f.get("label") or f.get("kind")))[:150] + ".json"
+            rpath = os.path.join(VERIF, "replays", prop, fname)
+            json.dump(dict(property=prop, obligation="%s/bounded-standin:%s" % (c.short, f.get("label") or f.get("kind")), function=c.qual, kind="bounded-standin",
+                           failing_input=f, native=dict(confirmed=True, observed=f), note="found by run-time contract checking on the real function (bounded stand-in), the prover reported: %s" % (r.limit or "undecided")),
+                      open(rpath, "w"), indent=1, default=str)
+            violations.append("VIOLATION property=%s replay=%s" % (prop, rpath))
     for ev in extra["violations"]:
         fname = re.sub(r"[^A-Za-z0-9_.@-]", "_", ev["obligation"])[:150] + ".json"
         rpath = os.path.join(VERIF, "replays", prop, fname)
@@ -234,6 +253,7 @@ def run_property(prop, tier="quick", repo_root="/repo", seed=0, only=None, verbo
         vc_generation_s=round(gen_time, 2),
         obligation_instances=len(all_obls),
         ground_checks=extra["ground"],
+        bounded_standin=bounded,
         explanation="contract-based deductive verification: VCs generated from the current /repo AST by pyvc and discharged by SMT; level is 'proof' only when every generated obligation is discharged, no function is out of reach and no canary is vacuous",
     )
     model_assumptions = ["abstract property read as a heap field: %s" % a for a in spec.abstract_props] + [
@@ -274,6 +294,56 @@ def run_property(prop, tier="quick", repo_root="/repo", seed=0, only=None, verbo
             print("UNDECIDED property=%s baseline obligation not generated: %s" % (prop, n))
         return 2
     return 0
+
+
+def standin_spec(c, r, repo, seed, n):
+    """data for rt/standin.py: clause texts, observables, candidate atoms / numbers from the function and its contract"""
+    import ast as _ast
+    from .values import ATOMS
+
+    texts = []
+    atom_names = set()
+    nums = set()
+
+    def scan(node):
+        for x in _ast.walk(node):
+            if isinstance(x, _ast.Constant):
+                if isinstance(x.value, str):
+                    atom_names.add("str:" + x.value)
+                elif isinstance(x.value, (int, float)) and not isinstance(x.value, bool):
+                    nums.add(repr(x.value))
+            elif isinstance(x, _ast.Attribute) and isinstance(x.value, _ast.Name) and x.value.id in repo.classes and "Enum" in repo.classes[x.value.id].bases:
+                atom_names.add("%s.%s" % (x.value.id, x.attr))
+
+    try:
+        m, cls, node = repo.find(c.qual)
+        scan(node)
+    except Exception:
+        pass
+    scan(c.node)
+    pool = [ATOMS.code(n) for n in sorted(atom_names)] + [ATOMS.code("str:other")]
+    from fractions import Fraction as _F
+
+    return dict(
+        function=c.qual, requires=[_ast.unparse(n) for _, n in c.requires], ensures=[[l, _ast.unparse(n)] for l, n in c.ensures],
+        raises=[dict(exc=x["exc"], when=_ast.unparse(x["when"]) if x["when"] is not None else None, iff=x["iff"]) for x in c.raises],
+        observables=[[p, s] for p, s, t in r.observables], atoms={str(k): v for k, v in ATOMS.names.items()}, atom_pool=pool,
+        num_pool=[str(_F(x)) for x in sorted(nums)][:40], n=n, seed=seed,
+    )
+
+
+def run_standin(c, r, repo, repo_root, seed, n):
+    if not r.observables:
+        return dict(evaluations=0, accepted=0, distinct=0, failures=[], error="no observables (the prover did not reach the function entry)")
+    spec = standin_spec(c, r, repo, seed, n)
+    try:
+        p = subprocess.run([VENV_PY, os.path.join(VERIF, "rt", "standin.py"), "--repo", repo_root], input=json.dumps(spec, default=str), capture_output=True, text=True, timeout=600)
+        last = [l for l in p.stdout.strip().splitlines() if l.startswith("{")]
+        if last:
+            return json.loads(last[-1])
+        return dict(evaluations=0, accepted=0, distinct=0, failures=[], error=p.stderr[-600:])
+    except Exception as e:
+        return dict(evaluations=0, accepted=0, distinct=0, failures=[], error=repr(e))
 
 
 def finding_matches(kmatch, replay):
